@@ -3,7 +3,12 @@ package main
 // Channel num (C07): Compare / CompareFunction / NumericFunction / mod on numeric operands.
 //   num cmp <fn|ev> <op> <t> <hex> <t> <hex>         -> t | f | err | panic
 //   num ar  <fn|ev> <op> <t> <hex> <t> <hex> [...]   -> <t> <hex> | err | panic
-// t: i int64, u uint64, c rune, f float64 (IEEE bits). fn = the builtin called directly
+//   num gcmp <t> <hex> <t> <hex>                     -> <int> | err | panic     (*Zlisp).Compare called directly
+//   num gar  <op> <t> <hex> <t> <hex>                -> <t> <hex> | err | panic NumericDo called directly
+//   num gint <op> <t> <hex> <t> <hex>                -> <t> <hex> | err | panic IntegerDo called directly
+// The g-ops are answered on the Lean side by the functions TRANSLATED from the Go source
+// (Generated/NumGo.lean): they validate the translator extract/ex_numtrans.go.
+// t: i int64, u uint64, c rune, f float64 (IEEE bits), b bool (g-ops only). fn = the builtin called directly
 // (a Go panic is observed as such); ev = through EvalString with the operands bound as
 // globals (the builtin-call wrapper's recover turns the panic into an error).
 
@@ -33,6 +38,8 @@ func (v numVal) sexp() zygo.Sexp {
 		return &zygo.SexpChar{Val: rune(int32(uint32(v.bits)))}
 	case "f":
 		return &zygo.SexpFloat{Val: math.Float64frombits(v.bits)}
+	case "b":
+		return &zygo.SexpBool{Val: v.bits != 0}
 	}
 	return zygo.SexpNull
 }
@@ -69,8 +76,74 @@ func numSetup() {
 	}
 }
 
+var numericOps = map[string]zygo.NumericOp{"+": zygo.Add, "-": zygo.Sub, "*": zygo.Mult, "/": zygo.Div}
+var integerOps = map[string]zygo.IntegerOp{"sll": zygo.ShiftLeft, "sra": zygo.ShiftRightArith, "srl": zygo.ShiftRightLog,
+	"mod": zygo.Modulo, "and": zygo.BitAnd, "or": zygo.BitOr, "xor": zygo.BitXor}
+var integerOpNames = []string{"sll", "sra", "srl", "mod", "and", "or", "xor"}
+
+// numExecGen: the Go originals of the translated entry points, called directly.
+func numExecGen(toks []string) (ans string) {
+	kind := toks[0]
+	rest := toks[1:]
+	op := ""
+	if kind != "gcmp" {
+		if len(rest) == 0 {
+			return "bad-op"
+		}
+		op, rest = rest[0], rest[1:]
+	}
+	if len(rest) != 4 {
+		return "bad-op"
+	}
+	var args []zygo.Sexp
+	for i := 0; i < 4; i += 2 {
+		b, err := strconv.ParseUint(rest[i+1], 16, 64)
+		if err != nil || !strings.Contains("iucfb", rest[i]) {
+			return "bad-op"
+		}
+		args = append(args, numVal{rest[i], b}.sexp())
+	}
+	defer func() {
+		if r := recover(); r != nil {
+			ans = "panic"
+		}
+	}()
+	switch kind {
+	case "gcmp":
+		r, err := numEnv.Compare(args[0], args[1])
+		if err != nil {
+			return "err"
+		}
+		return strconv.Itoa(r)
+	case "gar":
+		o, ok := numericOps[op]
+		if !ok {
+			return "bad-op"
+		}
+		r, err := zygo.NumericDo(o, args[0], args[1])
+		if err != nil {
+			return "err"
+		}
+		return showNum(r)
+	case "gint":
+		o, ok := integerOps[op]
+		if !ok {
+			return "bad-op"
+		}
+		r, err := zygo.IntegerDo(o, args[0], args[1])
+		if err != nil {
+			return "err"
+		}
+		return showNum(r)
+	}
+	return "bad-op"
+}
+
 func numExec(toks []string) (ans string) {
 	numSetup()
+	if len(toks) > 0 && (toks[0] == "gcmp" || toks[0] == "gar" || toks[0] == "gint") {
+		return numExecGen(toks)
+	}
 	if len(toks) < 7 || (len(toks)-3)%2 != 0 {
 		return "bad-op"
 	}
@@ -183,6 +256,20 @@ func numGen(g *Gen) {
 			g.Count("grid-pair " + a.t + b.t)
 		}
 	}
+	// the translated entry points against their Go originals: grid (with bools) exhaustively
+	ggrid := append(append([]numVal{}, grid...), numVal{"b", 0}, numVal{"b", 1})
+	for _, a := range ggrid {
+		for _, b := range ggrid {
+			g.Emit("gcmp %s %s", a, b)
+			for _, op := range arOps[:4] {
+				g.Emit("gar %s %s %s", op, a, b)
+			}
+			for _, op := range integerOpNames {
+				g.Emit("gint %s %s %s", op, a, b)
+			}
+			g.Count("gen-grid-pair " + a.t + b.t)
+		}
+	}
 	nEv, nRand := 3000, 20000
 	if g.Thorough() {
 		nEv, nRand = 60000, 600000
@@ -215,6 +302,16 @@ func numGen(g *Gen) {
 			g.Emit("ar fn %s %s %s", arOps[g.Rng.Intn(len(arOps))], a, b)
 		}
 		g.Count("rand-pair " + a.t + b.t)
+		// the same random pair through the translated functions
+		switch g.Rng.Intn(3) {
+		case 0:
+			g.Emit("gcmp %s %s", a, b)
+		case 1:
+			g.Emit("gar %s %s %s", arOps[g.Rng.Intn(4)], a, b)
+		default:
+			g.Emit("gint %s %s %s", integerOpNames[g.Rng.Intn(len(integerOpNames))], a, b)
+		}
+		g.Count("gen-rand-pair " + a.t + b.t)
 	}
 }
 
